@@ -7,6 +7,12 @@ ids = [json.loads(l)["id"] for l in open(os.path.join(ROOT, "properties.jsonl"))
 
 TECH = "deterministic whole-program simulation (std-facade substitution under a seeded scheduler) with fault injection; "
 CLAIMED = {
+    "C03": dict(
+        level="exploration", ref="DESIGN.md 5/C03",
+        text="Seeded search over lock-level interleavings of 1-2 writer and 1-2 subscriber sessions (watch/unwatch/unwatch-all/disconnect) on a node booted by start_db, direct and over the real TCP handler; the recorded history (global sequence stamps, unique values) is checked: every accepted write entirely inside a subscription is notified exactly once, refused and outside writes never, and the highest-versioned notification equals the final value.",
+        note="boundary-overlapping mutations may or may not be notified; increments/removes judged by counts; shuttle SeqCst",
+        technique=TECH + "history check of notifications against subscription intervals",
+    ),
     "C10": dict(
         level="exploration", ref="DESIGN.md 5/C10",
         text="Grammar-based hostile lines (every parser command word x hostile token alphabet, raw bytes, pipelining without reading) are sent over the real TCP / WebSocket / HTTP handlers of a node booted by start_db on the simulated wire, unauthenticated and as administrator; after every line the harness checks that no task of the node panicked and that a second client can connect and complete a set/get round trip; sampling.",
@@ -79,7 +85,7 @@ m = {
     "hooks": {
         "guard": "nundb_verif",
         "enable": "sim/gen-src mirrors /repo/src into sim/gen/src and injects cfg(nundb_verif)-guarded `use nundb_verif_rt::stdx as std;`-style alias lines (add-only, never committed to /repo); sim/shadow/build.rs and sim/harness/build.rs emit --cfg nundb_verif",
-        "baseline_off_cmd": "cd /repo && cargo test --workspace --no-fail-fast --offline",
+        "baseline_off_cmd": "cd /repo && (cargo nextest run --workspace --no-fail-fast --tool-config-file pb:/w/lib/nextest.toml --profile pb --test-threads 8 --offline || cargo test --workspace --no-fail-fast --offline)",
         "source_commits": [],
         "add_only": True,
     },
